@@ -115,10 +115,9 @@ func (fv *FV) staticCall(st *State, x *ssa.Call, fn *ssa.Function, binds []SymVa
 		for _, a := range c.Args {
 			args = append(args, fv.vterm(st, a))
 		}
-		if len(binds) > 0 {
-			fv.outsidef("contract call of closure with bindings: %s", key)
-		}
+		fv.curBinds = binds
 		res := fv.callByContract(st, fn, spec, c, args, x.Pos(), x)
+		fv.curBinds = nil
 		fv.setCallResult(st, x, res)
 		return st
 	}
@@ -243,6 +242,28 @@ func (fv *FV) applyContract(st *State, spec *FuncSpec, fn *ssa.Function, c *ssa.
 			}
 		}
 	}
+	// closure called by contract: its captured variables are the caller's cells
+	type capt struct {
+		name string
+		cell CellID
+		typ  types.Type
+	}
+	var capts []capt
+	if fn != nil && len(fv.curBinds) == len(fn.FreeVars) {
+		for i, f := range fn.FreeVars {
+			b := fv.curBinds[i]
+			if b.K == VCellPtr && len(b.Path) == 0 {
+				if cv, ok := st.cells[b.Cell]; ok && cv.K == VTerm {
+					t := cv.T
+					if t.T == nil {
+						t.T = f.Type().(*types.Pointer).Elem()
+					}
+					vars[f.Name()] = t
+					capts = append(capts, capt{f.Name(), b.Cell, f.Type().(*types.Pointer).Elem()})
+				}
+			}
+		}
+	}
 	pre := &Env{fv: fv, st: st, heap: st.heap, epoch: st.epoch, vars: vars, pkgName: spec.PkgName, err: &errs}
 	short := spec.Key
 	for i, cl := range spec.Requires {
@@ -285,6 +306,17 @@ func (fv *FV) applyContract(st *State, spec *FuncSpec, fn *ssa.Function, c *ssa.
 	post := &Env{fv: fv, st: st, heap: st.heap, epoch: st.epoch, vars: map[string]Term{}, pkgName: spec.PkgName, err: &errs, old: oldEnv}
 	for k, v := range vars {
 		post.vars[k] = v
+	}
+	// captured variables named in the assigns clause get new values
+	for _, cp := range capts {
+		for _, a := range spec.Assigns {
+			if id, ok := a.E.(*EIdent); ok && id.Name == cp.name {
+				nv := fv.freshConst(st, "hv_"+cp.name, fv.sortOf(cp.typ), cp.typ)
+				fv.typeAssume(st, nv, cp.typ)
+				st.cells[cp.cell] = tv(nv)
+				post.vars[cp.name] = nv
+			}
+		}
 	}
 	if sig != nil {
 		rs := sig.Results()
@@ -463,6 +495,9 @@ func (fv *FV) havocTarget(st *State, env *Env, a *Clause, spec *FuncSpec, pos to
 			st.heap[names[0]] = fv.freshConst(st, "hv_"+x.Name, sorts[0], nil)
 			return
 		}
+		if fv.isFreeVarName(spec, x.Name) {
+			return // captured variable of a closure: handled by the caller of havocTarget
+		}
 		fv.outsidef("unsupported assigns target %s", a.Text)
 	default:
 		fv.outsidef("unsupported assigns target %s", a.Text)
@@ -541,6 +576,9 @@ func (fv *FV) calleeFrameCheck(st *State, calleeOld *Env, spec *FuncSpec, pos to
 				fv.oblige(st, "frame", "callee:"+spec.Key+":contents", pos, tOr(alts...), "assigns")
 			}
 		case *EIdent:
+			if fv.isFreeVarName(spec, x.Name) {
+				continue
+			}
 			ok := false
 			for _, mine := range fv.spec.Assigns {
 				if mi, isId := mine.E.(*EIdent); isId && mi.Name == x.Name {
@@ -807,4 +845,17 @@ func (fv *FV) dynDispatch(st *State, x *ssa.Call, sv SymVal, targets []fnTarget)
 		}
 	}
 	return first
+}
+
+func (fv *FV) isFreeVarName(spec *FuncSpec, name string) bool {
+	fn := fv.eng.funcs[spec.Key]
+	if fn == nil {
+		return false
+	}
+	for _, f := range fn.FreeVars {
+		if f.Name() == name {
+			return true
+		}
+	}
+	return false
 }
